@@ -1569,3 +1569,51 @@ def rule_reply_read_errors_abort(ctx):
                 r.ok(anchor, "NOT decided: no handler of the read results recognised", s.loc())
     if n == 0:
         r.ok("lines", "NOT decided: no BufRead::lines reader in the SAT layer", None)
+
+
+def rule_feeder_writes_what_it_read(ctx):
+    """C16: the bytes handed to the external solver are the bytes of the instance"""
+    prog = ctx.prog
+    from ..prov import prov, show, subterms, roots
+
+    r = ctx.rule(
+        "feeder-writes-what-it-read",
+        "the code that copies the DIMACS text to the child's stdin writes what it read and nothing else: a growing `String` / `Vec` filled by "
+        "`read_to_string` / `read_to_end`, `io::copy`, or - with a fixed buffer filled by `Read::read` - the slice `..n` of the bytes that call "
+        "reported; writing the whole fixed buffer sends stale bytes and NUL padding",
+    )
+    n = 0
+    for b in sorted(prog.lib_bodies(), key=lambda x: x.id):
+        if not in_sat_module(b):
+            continue
+        reads = [s for s in b.calls() if callee_decl(callee_of(s)) == "std::io::Read::read"]
+        writes = [s for s in b.calls() if callee_matches(callee_of(s), r"^std::io::Write::(write_all|write)$")]
+        if not writes:
+            continue
+        whole = [s for s in b.calls() if callee_matches(callee_of(s), r"^std::io::Read::(read_to_string|read_to_end)$|^std::io::copy$|^std::io::copy::copy$")]
+        if not reads:
+            if whole:
+                n += 1
+                r.ok(b.id, "the text is read as a whole (%s) and written as it is" % callee_decl(callee_of(whole[0])).rsplit("::", 1)[-1], whole[0].loc())
+            continue
+        for rd in reads:
+            n += 1
+            buf = roots(prog, b, rd.node["args"][1])
+            for w in writes:
+                anchor = "%s|write" % b.id
+                ok = bad = False
+                for e in prov(prog, b, w.node["args"][1]):
+                    sl = [t for t in subterms(e) if isinstance(t, tuple) and t[0] == "call" and re.search(r"Index::index$", t[1]) and len(t[2]) == 2 and isinstance(t[2][1], tuple) and t[2][1][0] == "agg" and "Range" in str(t[2][1][1])]
+                    if sl:
+                        ok = True
+                        continue
+                    if roots(prog, b, w.node["args"][1]) & buf:
+                        bad = True
+                if bad and not ok:
+                    r.violation(anchor, "whole-buffer-written", "the whole fixed buffer is written after a `read` that filled only its first n bytes: the solver receives stale text and padding after the instance", w.loc())
+                elif ok:
+                    r.ok(anchor, "writes the slice of the buffer the read filled", w.loc())
+                else:
+                    r.ok(anchor, "NOT decided: what is written is not traced to the read buffer", w.loc())
+    if n == 0:
+        r.ok("feeder", "NOT decided: no code copying a reader to a writer in the SAT layer", None)
